@@ -1,6 +1,6 @@
 #!/bin/sh
 # run_all.sh [quick|thorough]: every registered check in sequence, then validate evidence against the schema.
-tier="${1:-quick}"; cd /verif || exit 2
+tier="${1:-quick}"; cd "$(dirname "$0")/.." || exit 2
 rc=0
 for p in $(python3 -c "import json;print(' '.join(c['property_id'] for c in json.load(open('MANIFEST.json'))['checks']))"); do
   start=$(date +%s)
@@ -12,11 +12,11 @@ done
 python3-vt - <<'PY'
 import json,jsonschema,sys
 s=json.load(open('/root/.vp/EVIDENCE.schema.json'))
-m=json.load(open('/verif/MANIFEST.json'))
+m=json.load(open('MANIFEST.json'))
 jsonschema.validate(m,json.load(open('/root/.vp/MANIFEST.schema.json')))
 bad=0
 for c in m['checks']:
-    try: jsonschema.validate(json.load(open('/verif/'+c['evidence_file'])),s)
+    try: jsonschema.validate(json.load(open(c['evidence_file'])),s)
     except Exception as e: print('EVIDENCE INVALID',c['property_id'],str(e)[:200]); bad=1
 print('schemas', 'ok' if not bad else 'BAD')
 PY
